@@ -8,6 +8,7 @@ package config
 // C07 safety sweep: any value is admitted. Decode / decodeString are reflection-driven and not under contract.
 // Termination of Normalize's recursion is NOT proved: it needs an acyclic value (a slice or map that contains itself
 // makes Normalize recurse until the stack is exhausted); values decoded from YAML / JSON text are trees.
+//@ assume-text config.Normalize / PrefixedBy: the value is acyclic (a tree, as every YAML / JSON decoder produces). A map or slice that contains itself can only be built as a Go value; on it the recursion does not terminate (stack exhaustion, not recoverable). Termination of the recursion is not proved
 
 //@ func Normalize
 //@   tags C07
